@@ -65,6 +65,9 @@ def gen_finite(rng, k, gen_case):
             opts['mixer'] = None
             opts.pop('mixer_params', None)
         case['any_sector'] = True
+        if m.get('conserve') in (None, 'None'):
+            # (a conserved charge, so that "all sectors" differs from "the sector of the initial state")
+            m['conserve'] = 'parity' if m['name'] == 'tfi' else 'Sz'
         if L > 7:
             case['L'] = L = 6
             case['init_idx'] = case['init_idx'][:L]
